@@ -52,6 +52,16 @@ func (s AtomSet) with(as ...Atom) AtomSet {
 	}
 	return c
 }
+func (s AtomSet) without(as ...Atom) AtomSet {
+	if s.top || len(as) == 0 {
+		return s
+	}
+	c := s.clone()
+	for _, a := range as {
+		delete(c.m, a)
+	}
+	return c
+}
 func (s AtomSet) union(o AtomSet) AtomSet {
 	if s.top || o.top {
 		return topSet()
@@ -115,7 +125,7 @@ func (s AtomSet) exported() AtomSet {
 	}
 	c := emptySet()
 	for a := range s.m {
-		if !strings.HasPrefix(a, "nn:") && !strings.HasPrefix(a, "v:") && !strings.Contains(a, "=>") {
+		if !strings.HasPrefix(a, "nn:") && !strings.HasPrefix(a, "v:") && !strings.HasPrefix(a, "held:") && !strings.Contains(a, "=>") {
 			c.m[a] = true
 		}
 	}
@@ -186,6 +196,9 @@ type AtomDef struct {
 	Exec func(m *Matcher, call ssa.CallInstruction) bool
 	// ExecAny is called for every non-call instruction; the atom holds after it.
 	ExecAny func(m *Matcher, in ssa.Instruction) bool
+	// ExecDyn returns atoms generated (gen) and removed (kill) by executing a
+	// call, e.g. lock acquisition and release ("held:<mutex>").
+	ExecDyn func(m *Matcher, call ssa.CallInstruction) (gen, kill []Atom)
 	// EdgeDyn returns dynamically named, function-local atoms (prefix "v:")
 	// established on this edge, e.g. bounds facts about a particular SSA value.
 	EdgeDyn func(m *Matcher, p Pred, holds bool) []Atom
@@ -232,6 +245,7 @@ type Flow struct {
 	gen     map[*ssa.BasicBlock][2][]Atom // static per-edge atoms from AtomDefs (index 0 = true edge)
 	genSum  map[*ssa.BasicBlock][2][]sumRef
 	exec    map[ssa.Instruction][]Atom
+	kill    map[ssa.Instruction][]Atom
 	// boolean-phi conditions (a && b used as a value, e.g. in a switch case):
 	// per predecessor, the atoms generated when that incoming value is
 	// true (index 0) / false (index 1), and whether the incoming value is a
@@ -263,7 +277,7 @@ func NewFlow(p *Prog, rs *RuleSet, roots []*ssa.Function, skip func(*ssa.Functio
 	f := &Flow{P: p, RS: rs, Roots: roots,
 		ctx: map[*ssa.Function]AtomSet{}, sumErr: map[*ssa.Function]map[int]AtomSet{}, sumTrue: map[*ssa.Function]map[int]AtomSet{},
 		in: map[*ssa.BasicBlock]AtomSet{}, gen: map[*ssa.BasicBlock][2][]Atom{}, genSum: map[*ssa.BasicBlock][2][]sumRef{},
-		exec: map[ssa.Instruction][]Atom{}, mcache: map[*ssa.Function]*Matcher{},
+		exec: map[ssa.Instruction][]Atom{}, kill: map[ssa.Instruction][]Atom{}, mcache: map[*ssa.Function]*Matcher{},
 		phiGen: map[*ssa.BasicBlock][]phiIn{}, edgeSt: map[[2]*ssa.BasicBlock]AtomSet{}}
 	f.Region = p.Reachable(roots, func(fn *ssa.Function) bool {
 		if fn.Pkg != nil && isHarnessPkg(fn.Pkg.Pkg.Path()) {
@@ -300,6 +314,11 @@ func (f *Flow) prepare(fn *ssa.Function) {
 				for _, ad := range f.RS.Atoms {
 					if ad.Exec != nil && ad.Exec(m, call) {
 						f.exec[in] = append(f.exec[in], ad.Name)
+					}
+					if ad.ExecDyn != nil {
+						g, k := ad.ExecDyn(m, call)
+						f.exec[in] = append(f.exec[in], g...)
+						f.kill[in] = append(f.kill[in], k...)
 					}
 				}
 			} else {
@@ -515,6 +534,9 @@ func (f *Flow) blockOut(b *ssa.BasicBlock, in AtomSet) AtomSet {
 		if as := f.exec[ins]; len(as) > 0 {
 			s = s.with(as...)
 		}
+		if ks := f.kill[ins]; len(ks) > 0 {
+			s = s.without(ks...)
+		}
 	}
 	return f.close(s)
 }
@@ -532,6 +554,9 @@ func (f *Flow) StateAt(ins ssa.Instruction) AtomSet {
 		}
 		if as := f.exec[x]; len(as) > 0 {
 			s = s.with(as...)
+		}
+		if ks := f.kill[x]; len(ks) > 0 {
+			s = s.without(ks...)
 		}
 	}
 	return f.close(s)
@@ -602,7 +627,7 @@ func (f *Flow) runFunc(fn *ssa.Function) {
 func returnValue(ret *ssa.Return, i int) ssa.Value {
 	v := ret.Results[i]
 	if u, ok := v.(*ssa.UnOp); ok && u.Op == token.MUL {
-		if al, ok := u.X.(*ssa.Alloc); ok {
+		if al, ok := u.X.(*ssa.Alloc); ok && isResultSpill(ret.Parent(), al, i) {
 			b := ret.Block()
 			var last ssa.Value
 			for _, in := range b.Instrs {
@@ -926,4 +951,15 @@ func (f *Flow) PathAvoiding(fn *ssa.Function, target *ssa.BasicBlock, a Atom) []
 		out = append(out, fmt.Sprintf("b%d@%s", b.Index, pos))
 	}
 	return out
+}
+
+// isResultSpill: al is the stack slot of the i-th named result (functions with
+// defer keep named results in allocs and reload them before returning).
+func isResultSpill(fn *ssa.Function, al *ssa.Alloc, i int) bool {
+	res := fn.Signature.Results()
+	if i >= res.Len() {
+		return false
+	}
+	name := res.At(i).Name() // "" for unnamed results, which go/ssa also spills when the function defers
+	return al.Comment == name && !al.Heap && al.Block() == fn.Blocks[0] && types.Identical(al.Type().Underlying().(*types.Pointer).Elem(), res.At(i).Type())
 }
